@@ -34,11 +34,12 @@ type tqScript struct {
 	Pert   int64               `json:"pert"`
 	Conc   int                 `json:"conc,omitempty"`
 	Watch  int                 `json:"watch,omitempty"`
+	Sched  string              `json:"sched,omitempty"`
 }
 
 func (s *tqScript) key() string {
 	c := *s
-	c.ID, c.Pert = 0, 0
+	c.ID, c.Pert, c.Sched = 0, 0, ""
 	b, _ := json.Marshal(c)
 	return string(b)
 }
@@ -260,6 +261,30 @@ func runTQ(c *core.Ctx, own tqOwner, g tqGen) {
 			runs = append(runs, &cp)
 		}
 	}
+	// targeted schedule family "late duplicate": for scripts that add an object more than once, the last
+	// duplicate is added only after the object's transfer has succeeded while the watcher is slow to drain,
+	// i.e. while the queue is still handing out that object's deliveries
+	nLate := 0
+	for _, s := range chosen {
+		dup := false
+		seenAdd := map[string]bool{}
+		for _, a := range s.Adds {
+			if seenAdd[a] {
+				dup = true
+			}
+			seenAdd[a] = true
+		}
+		if dup && !s.Upload {
+			cp := *s
+			id++
+			cp.ID = id
+			cp.Pert = 0
+			cp.Sched = "latedup"
+			runs = append(runs, &cp)
+			nLate++
+		}
+	}
+	c.Set("late_duplicate_schedules", nLate)
 	c.Set("scripts_replayed", len(chosen))
 	c.Set("class_counts", perClass)
 	c.Logf("replaying %d runs (%d scripts x %d schedules) of %d distinct scripts", len(runs), len(chosen), g.perts, len(all))
